@@ -29,6 +29,9 @@ type m7st struct {
 	states []*internal.State
 }
 
+var m7pool = make([]byte, 0, 8)
+var m7flip bool
+
 func m7key(k int) string { return fmt.Sprint("k", k) }
 
 func newM7(h int) *m7st {
@@ -89,7 +92,12 @@ func (st *m7st) apply(o m7op) (line string, panicked bool) {
 	case "putempty":
 		m.PutEmpty(m7key(o.k))
 	case "putb":
-		m.PutEmptyBytes(m7key(o.k)).FromRaw(o.bs)
+		if m7flip = !m7flip; m7flip { // through a buffer the caller keeps and re-uses: Value.FromRaw([]byte) must copy
+			m7pool = append(m7pool[:0], o.bs...)
+			_ = m.PutEmpty(m7key(o.k)).FromRaw(m7pool)
+		} else {
+			m.PutEmptyBytes(m7key(o.k)).FromRaw(o.bs)
+		}
 	case "bapp":
 		line = fmt.Sprintf("op bapp %d %d %d", o.a, o.k, o.v)
 		v, _ := m.Get(m7key(o.k))
